@@ -149,7 +149,7 @@ def handleReq (store : Store) (j : Json) : Except String Json := do
     let q ← qOfJson (← j.getObjVal? "q")
     let n ← (← j.getObjVal? "n").getNat?
     let fuel ← (← j.getObjVal? "fuel").getNat?
-    let r := simp fuel [] n q
+    let r := simplify fuel [] n q
     return Json.mkObj [("q", qToJson r.1), ("n", r.2), ("bang", hasBang r.1)]
   else if op == "pre" then
     let q ← qOfJson (← j.getObjVal? "q")
